@@ -27,6 +27,7 @@ from pyttb.pyttb_utils import tt_sub2ind
 
 from harness import gen
 from harness.lib import Family, Verdict, call, deep_eq, drive, frac, jval, strip_exc
+from harness.lib import sparse_j as lib_sparse_j
 
 RULE = ("cases come from random.Random(VERIF_SEED). samplers: dense and sparse tensors of order 1..3 (4 in "
         "thorough), extents 1..4, sparsity empty/one/some/all-but-one/all, sample counts 0..numel+3 (above the "
@@ -41,7 +42,15 @@ RULE = ("cases come from random.Random(VERIF_SEED). samplers: dense and sparse t
         "shape / mixed, each compared with a new object and with the object's attributes before the solve; 2-3 solves "
         "on one stochastic solver with the DEFAULT sampler (sampler=None, directly and through gcp_opt) over solver "
         "class x dense / sparse x (same shape other pattern | same pattern other values | other shape), every "
-        "function / gradient sample checked against the data of the current solve. A case is non-trivial when the implementation accepts it and the sample / run is non-empty "
+        "function / gradient sample checked against the data of the current solve. samplers.zeros(..., with_replacement="
+        "False) called directly (requests up to and above the number of zeros and around the 'need too many' limit, "
+        "pools of 7..97 draws so that drawn rows repeat, come unsorted and hit nonzeros); direct solve() with starts "
+        "whose weights are not all one (both signs, zero); gcp_setup: every objective x {dense float, dense integer "
+        "array, sparse with shuffled stored order, no data} x 13 data classes (binary mixed / all one / all zero, 0-2, "
+        "0-1-1/2, counts with and without zeros, negative integers, positive <= 1, positive > 1, mixed, non-negative "
+        "with an exact zero, negative reals) x parameter given / missing, through setup and through gcp_opt; "
+        "gcp_opt_inits: init = 'random' (two seeds) | list | tuple | ktensor | ktensor with other weights | 11 ill-"
+        "formed guesses, x L-BFGS-B / SGD / Adam / Adagrad x dense / sparse admissible data of 7 losses. A case is non-trivial when the implementation accepts it and the sample / run is non-empty "
         "(at least one sample, at least one completed epoch); distinct = distinct case hash")
 ASSUMPTIONS = [
     "np.random.uniform(0,1,size) returns size numbers in [0,1) and np.random.choice(n,size) size integers below n "
@@ -57,8 +66,21 @@ ASSUMPTIONS = [
     "NumPy broadcasting of extent-1 axes between stale Adam moments and gradients is not modelled (cannot occur "
     "after e9e4a44: the moments are rebuilt at every solve)",
     "solver hyper-parameters with 1 - beta**t = 0 or a zero first Adagrad gradient (division by zero) are not generated",
+    "zeros(with_replacement=False): the number of rows asked from the generator (a coupon-collector estimate with a "
+    "logarithm) is not in the Lean model; it is recomputed with math.log and compared unless a ceiling sits within "
+    "1e-9 of an integer (tag need-rounding)",
+    "a start with weights other than one handed to solve() directly: the estimates (an oracle here, C12's subject) are "
+    "those of the factor matrices alone, as the code computes them with lambda_check=False; the trace is compared "
+    "with that objective",
+    "gcp_setup: the domain of a loss is read from its documentation (binary = all entries 0 or 1, count = all entries "
+    "non-negative integers, non-negative = all entries >= 0; entries of a sparse tensor include the ones not stored); "
+    "stored explicit zeros, NaN and infinities are not generated; gcp_opt on 1-way tensors is not generated (raises "
+    "IndexError inside the estimate)",
 ]
 EXHAUSTIVE = {"quick": False, "thorough": False}
+#: modelled functions outside the files the property is anchored in (properties.jsonl): advisory drift detection
+ANCHORS = [("pyttb/gcp/fg_setup.py", "setup"), ("pyttb/gcp/fg_setup.py", "valid_nonneg"),
+           ("pyttb/gcp/fg_setup.py", "valid_binary"), ("pyttb/gcp/fg_setup.py", "valid_natural")]
 
 ONE_MINUS = "9007199254740991/9007199254740992"  # largest double below 1
 
@@ -346,7 +368,8 @@ class Samplers(Family):
         for _ in range(n):
             s = gen.shape(rng, 1, 4 if tier == "thorough" else 3, 4)
             us, ints = _pool(rng)
-            k = rng.choice(["uniform", "nonzeros", "zeros", "semistrat", "stratified", "stratified", "stratified"])
+            k = rng.choice(["uniform", "nonzeros", "zeros", "zeros_norepl", "zeros_norepl", "semistrat", "stratified",
+                            "stratified", "stratified"])
             cells = gen.numel(s)
             c = {"k": k, "shape": s, "us": us, "ints": ints}
             if k == "uniform" and rng.random() < 0.3:
@@ -369,6 +392,23 @@ class Samplers(Family):
                 elif k == "zeros":
                     c["samples"] = b
                     c["rate"] = rng.choice(["1.1", "1.1", "1.125", "1.5", "2.0", "3.0", "1.0"])
+                elif k == "zeros_norepl":
+                    # direct call with with_replacement=False: requests up to and above the number of zeros,
+                    # around the "need too many" boundary, long pools (so that most zeros are reached) and
+                    # short ones (duplicates among the drawn rows)
+                    if klass in ("all", "allbut1") and rng.random() < 0.7:   # nearly full tensors are refused
+                        subs, vals = gen.sparse_entries(rng, s, rng.choice(["one", "some", "some", "empty"]))
+                        c.update(subs=subs, vals=vals, klass="some")
+                        nnz = len(subs)
+                    nz = cells - nnz
+                    top = (nz * (cells - 1)) // cells      # largest count that passes "need too many"
+                    if rng.random() < 0.65 and top >= 1:
+                        c["samples"] = rng.randint(1, top)
+                    else:
+                        c["samples"] = max(0, rng.choice([0, 1, 2, top, top + 1, nz - 1, nz, nz + 1]))
+                    c["rate"] = rng.choice(["1.1", "1.1", "1.125", "1.5", "2.0", "1.0"])
+                    if rng.random() < 0.6:
+                        c["us"] = [f"{rng.randrange(64)}/64" for _ in range(rng.choice([7, 53, 97]))]
                 else:
                     c["num_nonzeros"] = a
                     c["num_zeros"] = b
@@ -402,6 +442,14 @@ class Samplers(Family):
                     z = np.asarray(S.zeros(data, nz_idx_of(case), case["samples"], float(case["rate"])))
                     return [] if z.size == 0 else jval(z.astype(int))
                 impl = call(f)
+            elif k == "zeros_norepl":
+                def f():
+                    z = np.asarray(S.zeros(data, nz_idx_of(case), case["samples"], float(case["rate"]),
+                                           with_replacement=False))
+                    if z.ndim != 2:
+                        return {"not-a-matrix": list(z.shape)}
+                    return [] if z.size == 0 else jval(z.astype(int))
+                impl = call(f)
             elif k == "semistrat":
                 impl = call(lambda: canon_sample(S.semistrat(data, case["num_nonzeros"], case["num_zeros"])))
             else:
@@ -424,6 +472,9 @@ class Samplers(Family):
                     "with_replacement": case["with_replacement"], "idx": idx_j(rng)}
         if k == "zeros":
             return {"op": "c13_zeros", "shape": case["shape"], "nz_idx": jval(nz_idx_of(case)),
+                    "samples": case["samples"], "rate": rate_exact(case), "draws": draws_j(rng)}
+        if k == "zeros_norepl":
+            return {"op": "c13_zeros_norepl", "shape": case["shape"], "nz_idx": jval(nz_idx_of(case)),
                     "samples": case["samples"], "rate": rate_exact(case), "draws": draws_j(rng)}
         if k == "semistrat":
             return {"op": "c13_semistrat", "data": sparse_req(case), "num_nonzeros": case["num_nonzeros"],
@@ -465,6 +516,24 @@ class Samplers(Family):
                     else:
                         return Verdict("violation", f"zeros asked the generator for {rows} rows, the model needs {need['ok']}",
                                        impl, need, None, tags)
+        if k == "zeros_norepl" and rng.uniform_calls:
+            # the number of rows asked from the generator (coupon-collector estimate, not in the model):
+            # recomputed here with math.log; skipped when a ceiling sits within rounding of an integer
+            cells = gen.numel(c["shape"])
+            nzc = cells - len(c["subs"])
+            rows = int(rng.uniform_calls[0].shape[0])
+            nt = math.ceil(Fraction(c["samples"] * cells, nzc))
+            x = cells * math.log(1.0 / (1.0 - nt / cells)) if nt < cells else float("inf")
+            y = float(c["rate"]) * math.ceil(x) if math.isfinite(x) else float("inf")
+            if math.isfinite(y) and abs(x - round(x)) > 1e-9 and abs(y - round(y)) > 1e-9:
+                if rows != math.ceil(y):
+                    return Verdict("violation", f"zeros(with_replacement=False) asked the generator for {rows} rows, "
+                                   f"the coupon-collector formula gives {math.ceil(y)}", impl, None, None, tags)
+                if rng.uniform_calls[0].shape[1:] != (len(c["shape"]),):
+                    return Verdict("violation", "zeros(with_replacement=False): one draw per mode expected", impl, None,
+                                   None, tags)
+            else:
+                tags.append("need-rounding")
         if not deep_eq(impl_c, m):
             return Verdict("violation", "implementation differs from the (proved) model", impl, m, None, tags,
                            "ok" in impl)
@@ -472,6 +541,34 @@ class Samplers(Family):
             return Verdict("ok", "", impl, m, None, tags, False)
         o = impl["ok"]
         nontrivial = bool(o) and (not isinstance(o, dict) or len(o["subs"]) > 0)
+        if k == "zeros_norepl":
+            data = lookup_of(c)
+            what = ""
+            if isinstance(o, dict):
+                what = f"result of shape {o['not-a-matrix']} is not a matrix of subscripts"
+            elif len(o) > c["samples"]:
+                what = f"{len(o)} subscripts for {c['samples']} requested"
+            elif any(len(r) != len(c["shape"]) or any(not (0 <= x < e) for x, e in zip(r, c["shape"])) for r in o):
+                what = "a subscript is outside the tensor / has not one entry per mode"
+            elif any(data.get(tuple(r), 0) != 0 for r in o):
+                what = "a subscript reported as a zero holds a stored nonzero"
+            elif len({tuple(r) for r in o}) != len(o):
+                what = "duplicate subscripts although sampling without replacement"
+            elif c["samples"] > gen.numel(c["shape"]) - len(c["subs"]):
+                what = "more zeros requested than the tensor has, yet answered"
+            tags.append("norepl-short" if len(o) < c["samples"] else "norepl-full-count")
+            if rng.uniform_calls:
+                drawn = np.floor(rng.uniform_calls[0] * np.array(c["shape"])).astype(int).tolist()
+                if len({tuple(r) for r in drawn}) < len(drawn):
+                    tags.append("norepl-duplicate-rows-drawn")
+                if drawn != sorted(drawn):
+                    tags.append("norepl-unsorted-rows-drawn")
+                if any(data.get(tuple(r), 0) != 0 for r in drawn):
+                    tags.append("norepl-nonzero-drawn")
+            if o:
+                tags.append("norepl-nonempty")
+            return Verdict("violation" if what else "ok", "zeros(with_replacement=False): " + what if what else "",
+                           impl, m, None, tags, nontrivial)
         if k == "nonzeros":
             data = lookup_of(c)
             ok = len(o["subs"]) == len(o["vals"]) == c["samples"] and all(
@@ -704,12 +801,14 @@ class ScriptedOracle:
         self.fs, self.gs = fs, gs
         self.fi = self.gi = 0
         self.boundary = []
+        self.bweights = []
         self.calls = []
 
     def __call__(self, model, subs, vals, wgts, function_handle=None, gradient_handle=None,
                  lambda_check=True, crng=None):
         if gradient_handle is None:
             self.boundary.append([f.copy() for f in model.factor_matrices])
+            self.bweights.append(np.array(model.weights, dtype=float).copy())
             self.calls.append(("f", crng_list(crng)))
             v = self.fs[self.fi]
             self.fi += 1
@@ -759,11 +858,17 @@ class RecordingOracle:
     def __init__(self, real):
         self.real = real
         self.fs, self.gs, self.boundary, self.calls, self.fargs, self.gargs = [], [], [], [], [], []
+        self.bweights, self.mutated = [], []
 
     def __call__(self, model, subs, vals, wgts, function_handle=None, gradient_handle=None, **kw):
+        # the model as it is HANDED IN (an estimate has no business changing it)
+        before = ktensor_state(model)
         r = self.real(model, subs, vals, wgts, function_handle, gradient_handle, **kw)
+        if not same_state(before, ktensor_state(model)):
+            self.mutated.append(len(self.calls))
         if gradient_handle is None:
-            self.boundary.append([f.copy() for f in model.factor_matrices])
+            self.boundary.append(before[1:])
+            self.bweights.append(before[0])
             self.fs.append(float(r))
             self.calls.append(("f", crng_list(kw.get("crng"))))
             self.fargs.append((np.array(subs).copy(), np.asarray(vals, dtype=float).reshape(-1).copy(),
@@ -846,6 +951,28 @@ def conv_bits(x):
 def indices_equal(boundary, factors):
     return [j for j, b in enumerate(boundary)
             if len(b) == len(factors) and all(np.array_equal(x, y) for x, y in zip(b, factors))]
+
+
+WEIGHT_POOL = ["2", "-1", "1/2", "-3/2", "3", "0", "1"]
+
+
+def gen_weights(rng, rank, p_unit=0.5):
+    """Weights of a starting guess handed to solve() DIRECTLY: all one (what gcp_opt passes), or of both signs /
+    zero / other magnitudes (a ktensor as users hold them)."""
+    if rng.random() < p_unit:
+        return ["1"] * rank
+    w = [rng.choice(WEIGHT_POOL) for _ in range(rank)]
+    if all(x == "1" for x in w):
+        w[rng.randrange(rank)] = rng.choice(["-1", "2", "-3/2"])
+    return w
+
+
+def ktensor_state(k):
+    return [np.array(k.weights, dtype=float).copy()] + [np.array(f, dtype=float).copy() for f in k.factor_matrices]
+
+
+def same_state(a, b):
+    return len(a) == len(b) and all(x.shape == y.shape and np.array_equal(x, y) for x, y in zip(a, b))
 
 
 def last_index_equal(boundary, factors):
@@ -946,7 +1073,8 @@ class SolverScripted(Family):
                     if all(x == 0 for A in g for row in A for x in row):
                         g[0][0][0] = 1
                     gs.append(g)
-                solves.append({"shape": shape, "rank": rank, "init": init, "fs": [str(x) for x in fs], "gs": gs})
+                solves.append({"shape": shape, "rank": rank, "init": init, "weights": gen_weights(rng, rank),
+                               "fs": [str(x) for x in fs], "gs": gs})
             out.append({"kind": kind, "hyper": h, "lb": lb, "solves": solves, "crng": rng.choice([0, 0, 1, 3])})
         return out
 
@@ -960,17 +1088,21 @@ class SolverScripted(Family):
         for s in case["solves"]:
             if opt is None or not shared:
                 opt = CLS[kind](**hyper_kwargs(kind, h))
-            init = ttb.ktensor([np.array([[float(Fraction(x)) for x in row] for row in A]) for A in s["init"]])
+            init = ttb.ktensor([np.array([[float(Fraction(x)) for x in row] for row in A]) for A in s["init"]],
+                               np.array([float(Fraction(x)) for x in s.get("weights") or ["1"] * s["rank"]]))
             data = ttb.tensor(np.ones(tuple(s["shape"])))
             oracle = ScriptedOracle([float(Fraction(x)) for x in s["fs"]], s["gs"])
 
             def f(opt=opt, init=init, data=data, oracle=oracle, s=s):
                 cfg_before = snapshot(opt)
+                init_before = ktensor_state(init)
                 with patched(O, "estimate", oracle), quiet():
                     m, info = opt.solve(init, data, _FH, _GH, -np.inf if lb is None else lb,
                                         DummySampler(len(s["shape"]), case.get("crng", 0)))
                 fm = [x.copy() for x in m.factor_matrices]
-                return {"factors": [tolist(x) for x in fm], "f_est_trace": tolist(info["f_est_trace"]),
+                return {"factors": [tolist(x) for x in fm], "weights": tolist(m.weights),
+                        "init_changed": not same_state(init_before, ktensor_state(init)),
+                        "f_est_trace": tolist(info["f_est_trace"]),
                         "step_trace": tolist(info["step_trace"]), "n_epoch": int(info["n_epoch"]),
                         "nfails": int(opt._nfails), "n_boundaries": len(oracle.boundary),
                         "best_index": last_index_equal(oracle.boundary, fm),
@@ -993,7 +1125,7 @@ class SolverScripted(Family):
             conv = conv_exact if exact else conv_bits
             reqs.append({"op": "c13_solves" if exact else "c13_solves_float", "kind": c["kind"],
                          "hyper": hyper_req(c["hyper"], conv), "state": state_req(FRESH, conv),
-                         "solves": [{"init": {"weights": [conv(Fraction(1))] * s["rank"],
+                         "solves": [{"init": {"weights": [conv(Fraction(x)) for x in s.get("weights") or ["1"] * s["rank"]],
                                               "factors": [[[conv(Fraction(x)) for x in row] for row in A] for A in s["init"]]},
                                      "lb": None if c["lb"] is None else conv(Fraction(c["lb"])),
                                      "fs": [conv(Fraction(x)) for x in s["fs"]],
@@ -1010,12 +1142,14 @@ class SolverScripted(Family):
             if impl[key] != m[key]:
                 return f"{key}: implementation {impl[key]}, model {m[key]}"
         if exact:
-            for key in ("factors", "f_est_trace", "step_trace"):
+            for key in ("factors", "weights", "f_est_trace", "step_trace"):
                 if not deep_eq(jval(impl[key]), m[key]):
                     return f"{key} differs from the model"
         else:
             if not deep_eq(bits_deep(impl["f_est_trace"]), m["f_est_trace"]):
                 return "f_est_trace differs from the model"
+            if not deep_eq(bits_deep(impl["weights"]), m["weights"]):
+                return "weights of the returned model differ from the model's"
             for key in ("factors", "step_trace"):
                 if not close_deep(impl[key], m[key], rel):
                     return f"{key} differs from the model beyond {rel}"
@@ -1035,6 +1169,10 @@ class SolverScripted(Family):
                 "lb=" + ("none" if c["lb"] is None else "finite")]
         if len({(tuple(s["shape"]), s["rank"]) for s in c["solves"]}) > 1:
             tags.append("sizes-differ")
+        if any(any(x != "1" for x in s.get("weights") or []) for s in c["solves"]):
+            tags.append("start-weights-not-one")
+        if any(any(Fraction(x) < 0 for x in s.get("weights") or []) for s in c["solves"]):
+            tags.append("start-weight-negative")
         lb = None if c["lb"] is None else float(Fraction(c["lb"]))
         nontrivial = False
         for k, s in enumerate(c["solves"]):
@@ -1047,6 +1185,8 @@ class SolverScripted(Family):
                 r = sh["ok"]
                 feasible = lb is None or all(float(Fraction(x)) >= lb for A in s["init"] for row in A for x in row)
                 what = spec_solve(h, lb, s["init"], r, feasible)
+                if not what and r["init_changed"]:
+                    what = "the solve modified the starting guess it was handed"
                 if not what and r["cfg_changed"]:
                     what = f"the solve changed the configuration of the solver object: {r['cfg_changed']}"
                 if not what:
@@ -1130,6 +1270,8 @@ def real_problem(c):
         init = ttb.ktensor([a + (b - a) * r.uniform(size=(s, c["rank"])) for s in shape])
     else:
         init = ttb.ktensor([lo + 0.1 + r.uniform(size=(s, c["rank"])) for s in shape])
+    if c.get("weights") is not None:   # a start whose weights are not all one (direct solve() only)
+        init = ttb.ktensor([f.copy() for f in init.factor_matrices], np.array([float(Fraction(x)) for x in c["weights"]]))
     return data, fh, gh, lb, init
 
 
@@ -1192,6 +1334,8 @@ class SolverReal(Family):
                          # gradient sample makes estimate() raise (error path, degenerate), so keep it unlikely
                          "gsamp": rng.randint(14, 20) if (sparse and gkind == "uniform") else count(gkind, 2, 6),
                          "via": ["solve", "gcp_opt"][(nprob + ci) % 2]}
+                    if p["via"] == "solve":   # gcp_opt always hands over unit weights; a direct caller need not
+                        p["weights"] = gen_weights(rng, p["rank"], 0.4)
                     base = base or p
                 probs.append(p)
             out.append({"kind": kind, "hyper": h, "problems": probs})
@@ -1213,6 +1357,9 @@ class SolverReal(Family):
                              "default_sampler": True, "fkind": None, "gkind": None, "fsamp": None, "gsamp": None,
                              "via": ["solve", "gcp_opt"][k % 2]}
                         b = dict(a, dseed=rng.randrange(10 ** 6), seed=rng.randrange(10 ** 6), via=["gcp_opt", "solve"][k % 2])
+                        for q in (a, b):
+                            if q["via"] == "solve":
+                                q["weights"] = gen_weights(rng, q["rank"], 0.5)
                         if rel == "same-shape-other-pattern":
                             b.update(mseed=rng.randrange(10 ** 6),
                                      density=rng.choice([d for d in ("1/4", "1/2", "3/4") if d != a["density"]]))
@@ -1267,6 +1414,7 @@ class SolverReal(Family):
                   fsample=fsample, default=default, arr=arr):
                 np.random.seed(p["seed"])
                 cfg_before = snapshot(opt)
+                init_before = ktensor_state(init)
                 opt.update_step = rec_step
                 try:
                     with patched(O, "estimate", oracle), quiet():
@@ -1297,7 +1445,11 @@ class SolverReal(Family):
                     bad_sample = sample_vs_data(arr, a, nonzero_values_only=semi)
                     if bad_sample:
                         bad_sample = f"gradient sample #{gi}: " + bad_sample
-                return {"factors": [tolist(x) for x in fm], "f_est_trace": tolist(info["f_est_trace"]),
+                return {"factors": [tolist(x) for x in fm], "weights": tolist(m.weights),
+                        "start_weights": tolist(oracle.bweights[0]) if oracle.bweights else tolist(init.weights),
+                        "init_changed": not same_state(init_before, ktensor_state(init)),
+                        "estimate_mutated_model": list(oracle.mutated),
+                        "f_est_trace": tolist(info["f_est_trace"]),
                         "step_trace": tolist(info["step_trace"]), "n_epoch": int(info["n_epoch"]),
                         "nfails": int(opt._nfails), "n_boundaries": len(oracle.boundary),
                         "best_index": last_index_equal(oracle.boundary, fm),
@@ -1322,7 +1474,8 @@ class SolverReal(Family):
             # the model the solver really started from (gcp_opt normalises the guess first)
             start = oracle.boundary[0] if oracle.boundary else init.factor_matrices
             results.append({"r": r, "steps": steps, "gs": oracle.gs, "init": [tolist(x) for x in start],
-                            "weights": [1.0] * p["rank"], "lb": None if not np.isfinite(lb) else float(lb)})
+                            "weights": tolist(oracle.bweights[0]) if oracle.bweights else tolist(init.weights),
+                            "lb": None if not np.isfinite(lb) else float(lb)})
             if "ok" not in r:
                 break
         return results
@@ -1363,7 +1516,10 @@ class SolverReal(Family):
                sorted({"via-" + p.get("via", "solve") for p in c["problems"]}) + \
                sorted({f"f={p.get('fkind')}/g={p.get('gkind')}" for p in c["problems"]}) + \
                (["default-sampler", "rel=" + c.get("relation", "-")] if any(p.get("default_sampler") for p in c["problems"]) else []) + \
-               sorted({"sparse" if p["sparse"] else "dense" for p in c["problems"]})
+               sorted({"sparse" if p["sparse"] else "dense" for p in c["problems"]}) + \
+               (["start-weights-not-one"] if any(any(x != "1" for x in p.get("weights") or []) for p in c["problems"]) else []) + \
+               (["start-weight-negative"] if any(any(Fraction(x) < 0 for x in p.get("weights") or [])
+                                                 for p in c["problems"]) else [])
         run_reply = next(rep for what, _, rep in replies if what == "run")
         ok_i = 0
         nontrivial = False
@@ -1373,6 +1529,13 @@ class SolverReal(Family):
                 return Verdict("violation", f"solve #{k + 1} raised: {r.get('exc')}: {r.get('msg')}", r, None, None, tags)
             o = r["ok"]
             what = spec_solve(h, x["lb"], None, o, True)
+            if not what and o["init_changed"]:
+                what = "the solve modified the starting guess it was handed"
+            if not what and o["weights"] != o["start_weights"]:
+                what = (f"the returned model has weights {o['weights']}, the start had {o['start_weights']} (the solve "
+                        "updates factor matrices only)")
+            if not what and o["estimate_mutated_model"]:
+                what = f"estimate calls {o['estimate_mutated_model']} changed the model they were handed"
             if not what:
                 what = o["crng_misuse"]
             if not what and o["n_fsamples_drawn"] != 1:
@@ -1437,6 +1600,9 @@ class SolverReal(Family):
                                    r, mk, None, tags)
             if not deep_eq(bits_deep(o["f_est_trace"]), mo["f_est_trace"]):
                 return Verdict("violation", f"solve #{k + 1}: f_est_trace differs from the model", r, mk, None, tags)
+            if not deep_eq(bits_deep(o["weights"]), mo["weights"]):
+                return Verdict("violation", f"solve #{k + 1}: weights of the returned model differ from the model's",
+                               r, mk, None, tags)
             if not (close_deep(o["factors"], mo["factors"], 1e-8) and close_deep(o["step_trace"], mo["step_trace"], 1e-8)):
                 return Verdict("violation", f"solve #{k + 1}: factors / steps differ from the model at Float beyond 1e-8",
                                r, mk, None, tags)
@@ -1870,5 +2036,554 @@ class Lbfgsb(Family):
                 yield {**case, "opts": {k: v for k, v in case["opts"].items() if k != key}}
 
 
+# ----------------------------------------------------------------------------
+# fg_setup.setup: which data a loss accepts, directly and through gcp_opt
+# ----------------------------------------------------------------------------
+#: the specification (GCP losses as documented): the data a loss is defined for, whether it needs the additional
+#: parameter, the lower bound of its model entries
+DOMAIN = {"GAUSSIAN": None, "HUBER": None, "BERNOULLI_ODDS": "binary", "BERNOULLI_LOGIT": "binary",
+          "POISSON": "natural", "POISSON_LOG": "natural", "RAYLEIGH": "nonneg", "GAMMA": "nonneg",
+          "NEGATIVE_BINOMIAL": "nonneg", "BETA": "nonneg"}
+NEEDS_PARAM = ("HUBER", "NEGATIVE_BINOMIAL", "BETA")
+LOWER = {"GAUSSIAN": -math.inf, "BERNOULLI_ODDS": 0.0, "BERNOULLI_LOGIT": -math.inf, "POISSON": 0.0,
+         "POISSON_LOG": -math.inf, "RAYLEIGH": 0.0, "GAMMA": 0.0, "HUBER": -math.inf, "NEGATIVE_BINOMIAL": 0.0,
+         "BETA": 0.0}
+DATA_CLASSES = ["binary-mixed", "binary-mixed", "binary-ones", "all-zero", "zero-two", "zero-one-half", "count", "count",
+                "count-positive", "int-negative", "positive-small", "positive-small", "positive-large",
+                "positive-mixed", "nonneg-zero", "nonneg-zero", "real-negative"]
+
+
+def admissible(domain, entries):
+    """Is the tensor with these entries (ALL entries, stored or not) in the domain of the loss?  Plain
+    arithmetic on exact rationals."""
+    xs = [Fraction(x) for x in entries]
+    if domain is None:
+        return True
+    if domain == "binary":
+        return all(x in (0, 1) for x in xs)
+    if domain == "natural":
+        return all(x.denominator == 1 and x >= 0 for x in xs)
+    return all(x >= 0 for x in xs)
+
+
+def class_entries(rng, klass, n):
+    """n entries (strings of exact rationals) of a data class; the defining feature of the class is forced to
+    occur (when n allows it)."""
+    def force(xs, *need):
+        pos = rng.sample(range(n), min(n, len(need)))
+        for k, v in zip(pos, need):
+            xs[k] = v
+        return xs
+    if klass == "binary-mixed":
+        return force([rng.choice(["0", "1"]) for _ in range(n)], "0", "1")
+    if klass == "binary-ones":
+        return ["1"] * n
+    if klass == "all-zero":
+        return ["0"] * n
+    if klass == "zero-two":
+        return force([rng.choice(["0", "0", "2"]) for _ in range(n)], "2")
+    if klass == "zero-one-half":
+        return force([rng.choice(["0", "1", "1/2"]) for _ in range(n)], "1/2")
+    if klass == "count":
+        return force([rng.choice(["0", "0", "1", "1", "2", "3", "5"]) for _ in range(n)], rng.choice(["2", "3", "7"]), "0")
+    if klass == "count-positive":
+        return force([rng.choice(["1", "2", "3", "4"]) for _ in range(n)], rng.choice(["2", "5"]))
+    if klass == "int-negative":
+        return force([rng.choice(["0", "1", "2", "3"]) for _ in range(n)], rng.choice(["-1", "-2"]))
+    if klass == "positive-small":       # all in (0, 1], something below 1
+        return force([f"{rng.randint(1, 8)}/8" for _ in range(n)], rng.choice(["1/8", "3/8", "7/8"]), "1")
+    if klass == "positive-large":       # all above 1
+        return [rng.choice(["3/2", "2", "5/2", "3", "17/8"]) for _ in range(n)]
+    mixed = [rng.choice(["1/4", "1/2", "1", "3/2", "2", "11/4", "3"]) for _ in range(n)]
+    if klass == "positive-mixed":
+        return mixed
+    if klass == "nonneg-zero":
+        return force(mixed, "0", rng.choice(["1/2", "3/2"]))
+    if klass == "real-negative":
+        return force(mixed, rng.choice(["-1/4", "-3/2", "-1"]))
+    raise ValueError(klass)
+
+
+def setup_data(c):
+    """The data object of a gcp_setup case (None | tensor | sptensor) and what `setup` reads of it."""
+    if c["rep"] == "none":
+        return None, None
+    shape = tuple(c["shape"])
+    vals = [Fraction(x) for x in c["entries"]]
+    if c["rep"] == "dense":
+        dt = int if c.get("dtype") == "int" else float
+        arr = np.array([dt(v) for v in vals], dtype=dt).reshape(shape, order="F")
+        return ttb.tensor(arr, copy=True), {"sparse": False, "vals": [jval(v) for v in vals]}
+    cells = gen.all_subs(c["shape"])
+    stored = [(cells[k], vals[k]) for k in c["order"] if vals[k] != 0]
+    data = gen.mk_sptensor(ttb, c["shape"], [q[0] for q in stored], [float(q[1]) for q in stored])
+    return data, {"sparse": True, "vals": [jval(q[1]) for q in stored]}
+
+
+class GcpSetup(Family):
+    """`fg_setup.setup(objective, data, parameter)` directly and through `gcp_opt`: every objective x dense (float
+    and integer arrays) / sparse (stored order shuffled) / no data x admissible and inadmissible data classes.  An
+    admissible request is answered with the loss's lower bound, an inadmissible one refused; implementation ==
+    Lean model (`setupS`) == specification (plain rational arithmetic on ALL entries of the tensor).  In particular a
+    dense non-negative tensor with exact zeros MUST be accepted by the four non-negative losses (083ca8e) and a tensor
+    with a negative integer MUST be refused by the Poisson losses (18649ab), in both representations."""
+    name = "gcp_setup"
+    theorems = ("C13_setup_table", "C13_setup_binary_dense", "C13_setup_binary_sparse", "C13_setup_natural_dense",
+                "C13_setup_natural_sparse", "C13_setup_nonneg_dense", "C13_setup_nonneg_sparse",
+                "C13_setup_nonneg_dense_zero_pinned_counterexample", "C13_setup_natural_negative_pinned_counterexample")
+
+    def gen(self, rng, tier):
+        out = []
+        objs = list(DOMAIN)
+        reps = 2 if tier == "quick" else 14
+        k = 0
+        for _ in range(reps):
+            for obj in objs:
+                for klass in sorted(set(DATA_CLASSES)):
+                    for rep in ("dense", "sparse"):
+                        # every objective x class x representation occurs in every run; shapes, values, the stored
+                        # order, the array type and the entry point vary
+                        k += 1
+                        shape = gen.shape(rng, 1, 3, 4)
+                        if gen.numel(shape) < 2 or (rep == "sparse" and rng.random() < 0.7 and gen.numel(shape) < 3):
+                            shape = rng.choice([[2, 3], [3, 2, 2], [4], [2, 1, 3], [3, 4]])
+                        n = gen.numel(shape)
+                        entries = class_entries(rng, klass, n)
+                        integral = all(Fraction(x).denominator == 1 for x in entries)
+                        order = list(range(n))
+                        rng.shuffle(order)
+                        c = {"objective": obj, "klass": klass, "rep": rep, "shape": shape, "entries": entries,
+                             "order": order if rng.random() < 0.8 else sorted(order),
+                             "dtype": "int" if (rep == "dense" and integral and rng.random() < 0.35) else "float",
+                             "param": rng.choice([None, "3/2", "2"]) if obj in NEEDS_PARAM else
+                             rng.choice([None, None, None, "2"]),
+                             "via": "setup"}
+                        nnz = sum(1 for x in entries if Fraction(x) != 0)
+                        # (gcp_opt on a 1-way tensor raises IndexError inside the estimate / the objective: CP of a
+                        # vector is outside what the solvers are written for and outside this family)
+                        if k % 3 == 0 and len(shape) >= 2 and (rep == "dense" or 0 < nnz < n):
+                            c.update(via="gcp_opt", param=None, rank=rng.randint(1, 2), seed=rng.randrange(10 ** 6),
+                                     solver=rng.choice(["sgd", "adam", "adagrad"] + (["lbfgsb"] * 3 if rep == "dense" else [])))
+                        out.append(c)
+        for obj in objs:     # no data at all: only the parameter decides
+            for param in (None, "3/2"):
+                out.append({"objective": obj, "klass": "no-data", "rep": "none", "shape": [], "entries": [], "order": [],
+                            "dtype": "float", "param": param, "via": "setup"})
+        return out
+
+    @staticmethod
+    def _run(c):
+        with quiet():
+            data, _ = setup_data(c)
+            before = None if data is None else (lib_sparse_j(data) if isinstance(data, ttb.sptensor)
+                                                else jval(np.asarray(data.data).flatten(order="F")))
+            param = None if c["param"] is None else float(Fraction(c["param"]))
+            if c["via"] == "setup":
+                def f():
+                    fh, gh, lb = setup(Objectives[c["objective"]], data, param)
+                    if not (callable(fh) and callable(gh)):
+                        raise AssertionError("setup returned something that is not a pair of callables")
+                    return {"lb": jval(float(lb))}
+                impl = call(f)
+            else:
+                r = np.random.RandomState(c["seed"])
+                init = [0.3 + r.uniform(size=(s, c["rank"])) for s in c["shape"]]
+                if c["solver"] == "lbfgsb":
+                    opt = O.LBFGSB(maxiter=2)
+                else:
+                    opt = CLS[c["solver"]](rate=1e-3, epoch_iters=1, max_iters=1, printitn=0)
+
+                def f():
+                    state = np.random.get_state()
+                    np.random.seed(c["seed"])
+                    try:
+                        m, m0, info = ttb.gcp_opt(data, c["rank"], Objectives[c["objective"]], opt, init=init, printitn=0)
+                    finally:
+                        np.random.set_state(state)
+                    fm = [np.asarray(x, dtype=float) for x in m.factor_matrices]
+                    return {"finite": bool(all(np.isfinite(x).all() for x in fm)),
+                            "min": min(float(x.min()) for x in fm),
+                            "shape_ok": [int(x.shape[0]) for x in fm] == list(c["shape"])
+                            and all(x.shape[1] == c["rank"] for x in fm)}
+                impl = call(f)
+            after = None if data is None else (lib_sparse_j(data) if isinstance(data, ttb.sptensor)
+                                               else jval(np.asarray(data.data).flatten(order="F")))
+        return impl, before == after
+
+    def evaluate(self, cases):
+        runs = [self._run(c) for c in cases]
+        reqs = []
+        for c in cases:
+            _, view = setup_data(c) if c["rep"] != "none" else (None, None)
+            # gcp_opt cannot hand a parameter over: it calls setup(objective, data)
+            reqs.append({"op": "c13_setup", "objective": c["objective"], "data": view,
+                         "param": None if c["param"] is None else jval(Fraction(c["param"]))})
+        models = drive(reqs)
+        return [self._judge(c, impl, same, m) for c, (impl, same), m in zip(cases, runs, models)]
+
+    @staticmethod
+    def _judge(c, impl, data_unchanged, m):
+        obj = c["objective"]
+        dom = DOMAIN[obj]
+        tags = [obj, "rep=" + c["rep"], "class=" + c["klass"], "via=" + c["via"], "dtype=" + c["dtype"],
+                "param=" + ("given" if c["param"] is not None else "none")]
+        data_ok = c["rep"] == "none" or admissible(dom, c["entries"])
+        spec_ok = data_ok and (obj not in NEEDS_PARAM or c["param"] is not None)
+        tags.append("spec=" + ("answer" if spec_ok else "refuse-data" if not data_ok else "refuse-parameter"))
+        impl_ok, model_ok = "ok" in impl, "ok" in m
+        if impl.get("reject"):
+            tags.append("reject")
+        what_data = f"{obj} on {c['rep']} data of class {c['klass']} (entries {c['entries'][:8]}...)"
+        if not data_unchanged:
+            return Verdict("violation", f"the call changed its data argument: {what_data}", impl, m, None, tags)
+        if impl_ok != model_ok:
+            return Verdict("violation", f"implementation {'answers' if impl_ok else 'refuses ' + str(impl.get('msg'))}, "
+                           f"the model of setup {'answers' if model_ok else 'refuses'}: {what_data}", impl, m,
+                           {"admissible": spec_ok}, tags, impl_ok)
+        if impl_ok != spec_ok:
+            xs = [Fraction(x) for x in c["entries"]]
+            if dom == "nonneg" and c["rep"] == "dense" and not impl_ok and data_ok and min(xs) == 0:
+                # the defect fixed by 083ca8e: asserted, no longer a listed finding
+                what = ("a dense NON-NEGATIVE tensor with an exact zero is refused "
+                        f"('{impl.get('msg')}'; its sparse form is accepted): {what_data}")
+            elif dom == "natural" and impl_ok and all(x.denominator == 1 for x in xs) and min(xs) < 0:
+                # the defect fixed by 18649ab
+                what = f"a tensor with a negative entry is accepted as a count tensor: {what_data}"
+            elif spec_ok:
+                what = f"an admissible request is refused ({impl.get('exc')}: {impl.get('msg')}): {what_data}"
+            else:
+                what = ("a request outside the domain of the loss is answered: " if not data_ok else
+                        "a request without the additional parameter the loss needs is answered: ") + what_data
+            return Verdict("violation", what, impl, m, {"admissible": spec_ok}, tags, impl_ok)
+        if not impl_ok:
+            return Verdict("ok", "", impl, m, None, tags, False)
+        o = impl["ok"]
+        if c["via"] == "setup":
+            if not deep_eq(o["lb"], jval(LOWER[obj])):
+                return Verdict("violation", f"setup({obj}) returns the lower bound {o['lb']}, the loss has {LOWER[obj]}",
+                               impl, m, None, tags)
+            if not deep_eq(o["lb"], m["ok"]):
+                return Verdict("violation", f"setup({obj}) returns the lower bound {o['lb']}, the model {m['ok']}",
+                               impl, m, None, tags)
+        else:
+            if not (o["finite"] and o["shape_ok"]):
+                return Verdict("violation", f"gcp_opt answered with a model that is not finite / not of the shape and "
+                               f"rank asked for: {what_data}", impl, m, None, tags)
+            if o["min"] < LOWER[obj]:
+                return Verdict("violation", f"gcp_opt({obj}) returned a factor entry {o['min']} below the lower bound "
+                               f"{LOWER[obj]}", impl, m, None, tags)
+        return Verdict("ok", "", impl, m, None, tags, c["rep"] != "none")
+
+    def shrink(self, case):
+        c = case
+        if c["via"] == "gcp_opt":
+            yield {**c, "via": "setup"}
+        if c["rep"] != "none" and len(c["shape"]) > 1:
+            n = c["shape"][0]
+            if n >= 2:   # keep the first mode only
+                yield {**c, "shape": [n], "entries": c["entries"][:n], "order": [k for k in c["order"] if k < n]}
+
+
+# ----------------------------------------------------------------------------
+# gcp_opt: the three ways of giving the starting guess ("random", a list of factor matrices, a ktensor)
+# ----------------------------------------------------------------------------
+INIT_OBJECTIVES = {"gaussian": "GAUSSIAN", "poisson": "POISSON", "poisson_log": "POISSON_LOG",
+                   "bernoulli_odds": "BERNOULLI_ODDS", "bernoulli_logit": "BERNOULLI_LOGIT", "rayleigh": "RAYLEIGH",
+                   "gamma": "GAMMA"}
+VALID_INITS = ["random", "random", "random", "list", "tuple", "ktensor", "ktensor-weights"]
+BAD_INITS = ["wrong-shape-ktensor", "wrong-rank-ktensor", "wrong-order-ktensor", "wrong-shape-list", "wrong-rank-list",
+             "ragged-list", "short-list", "other-string", "number", "none", "array"]
+
+
+def inits_problem(c):
+    """Admissible data for the objective of a gcp_opt_inits case (plain NumPy array + pyttb object)."""
+    r = np.random.RandomState(c["dseed"])
+    shape = tuple(c["shape"])
+    obj = c["objective"]
+    if obj in ("poisson", "poisson_log"):
+        arr = r.poisson(1.5, size=shape).astype(float)
+    elif obj in ("bernoulli_odds", "bernoulli_logit"):
+        arr = (r.uniform(size=shape) < 0.5).astype(float)
+    elif obj in ("rayleigh", "gamma"):
+        arr = r.uniform(0.2, 2.0, size=shape)
+    else:
+        arr = r.normal(size=shape)
+    if c["rep"] == "sparse":
+        if obj == "gaussian":
+            arr = arr * (r.uniform(size=shape) < 0.5)
+        arr.flat[0] = 1.0                 # neither empty nor full: the default samplers need both kinds of cells
+        arr.flat[arr.size - 1] = 0.0
+        return arr, ttb.tensor(arr.copy()).to_sptensor()
+    return arr, ttb.tensor(arr.copy())
+
+
+def make_init(c, kind=None):
+    """The `init` argument of a case (a fresh object at every call) and, for the valid kinds, its weights and
+    factor matrices as plain arrays."""
+    kind = kind or c["init"]
+    r = np.random.RandomState(c["iseed"])
+    shape, rank = list(c["shape"]), c["rank"]
+    F = [0.1 + r.uniform(size=(s, rank)) for s in shape]
+    w = np.ones(rank)
+    if kind == "random":
+        return "random", None
+    if kind == "list":
+        return [f.copy() for f in F], (w, F)
+    if kind == "tuple":
+        return tuple(f.copy() for f in F), (w, F)
+    if kind == "ktensor":
+        return ttb.ktensor([f.copy() for f in F]), (w, F)
+    if kind == "ktensor-weights":
+        w = np.array([float(Fraction(x)) for x in c["weights"]])
+        return ttb.ktensor([f.copy() for f in F], w.copy()), (w, F)
+    bigger = [0.1 + r.uniform(size=(s + (1 if k == len(shape) - 1 else 0), rank)) for k, s in enumerate(shape)]
+    wider = [0.1 + r.uniform(size=(s, rank + 1)) for s in shape]
+    if kind == "wrong-shape-ktensor":
+        return ttb.ktensor(bigger), None
+    if kind == "wrong-rank-ktensor":
+        return ttb.ktensor(wider), None
+    if kind == "wrong-order-ktensor":
+        return ttb.ktensor([f.copy() for f in F[:-1]]), None
+    if kind == "wrong-shape-list":
+        return bigger, None
+    if kind == "wrong-rank-list":
+        return wider, None
+    if kind == "ragged-list":
+        return [f.copy() for f in F[:-1]] + [wider[-1]], None
+    if kind == "short-list":
+        return [f.copy() for f in F[:-1]], None
+    if kind == "other-string":
+        return c.get("string", "rand"), None
+    if kind == "number":
+        return 3, None
+    if kind == "none":
+        return None, None
+    if kind == "array":
+        return F[0].copy(), None
+    raise ValueError(kind)
+
+
+def init_state(init):
+    if isinstance(init, ttb.ktensor):
+        return ktensor_state(init)
+    if isinstance(init, (list, tuple)):
+        return [np.array(f, dtype=float).copy() for f in init]
+    return []
+
+
+class RecordingUniform:
+    """np.random.uniform, passed through and written down (arguments and what came back)."""
+
+    def __init__(self):
+        self.real = np.random.uniform
+        self.calls = []
+
+    def __call__(self, low=0.0, high=1.0, size=None):
+        out = self.real(low, high, size)
+        self.calls.append((low, high, size, np.array(out, dtype=float).copy()))
+        return out
+
+
+class GcpOptInits(Family):
+    """gcp_opt with init="random" (seeded), a list / tuple of factor matrices, a ktensor (unit and other weights)
+    and ill-formed guesses, for L-BFGS-B and the three stochastic solvers on dense and sparse admissible data of
+    several losses.  A well-formed request is answered; the starting model returned has unit weights and denotes
+    the tensor the guess denotes (random: the drawn uniform(0,1) factors scaled to the norm of the data); the same
+    seed gives the same start and the same result; a list start equals the same start given as a ktensor; the guess
+    and the data are left as they were; an ill-formed guess is refused.  Reference: plain NumPy."""
+    name = "gcp_opt_inits"
+    theorems = ("C13_lbfgsb_not_worse", "C13_lower_bound_solve")
+
+    def gen(self, rng, tier):
+        out = []
+        n = 40 if tier == "quick" else 260
+        combos = [(rep, solver) for rep in ("dense", "sparse") for solver in ("lbfgsb", "sgd", "adam", "adagrad")
+                  if not (rep == "sparse" and solver == "lbfgsb")]
+        k = 0
+        for i in range(n):
+            rep, solver = combos[i % len(combos)]
+            obj = rng.choice(["gaussian", "gaussian", "poisson", "poisson_log", "bernoulli_odds", "bernoulli_logit"]
+                             + (["rayleigh", "gamma"] if rep == "dense" else []))
+            shape = rng.sample([2, 3, 4, 5], rng.choice([2, 3])) if rng.random() < 0.8 else \
+                rng.choice([[3, 3], [2, 1, 3], [4, 2, 2], [1, 4]])
+            if rep == "sparse" and gen.numel(shape) < 4:
+                shape = [3, 2]
+            rank = rng.randint(1, 3)
+            c = {"rep": rep, "solver": solver, "objective": obj, "shape": shape, "rank": rank,
+                 "dseed": rng.randrange(10 ** 6), "iseed": rng.randrange(10 ** 6), "seed": rng.randrange(10 ** 6),
+                 "seed2": rng.randrange(10 ** 6), "init": VALID_INITS[k % len(VALID_INITS)]}
+            k += 1
+            if c["init"] == "ktensor-weights":
+                c["weights"] = gen_weights(rng, rank, 0.0)
+                if obj not in ("gaussian", "poisson_log", "bernoulli_logit") or "0" in c["weights"]:
+                    # a guess is rescaled to unit weights: keep it inside the bound of the loss, and non-degenerate
+                    c["weights"] = [str(abs(Fraction(x)) or Fraction(3, 2)) for x in c["weights"]]
+            out.append(c)
+        # ill-formed guesses (and the one ill-formed pairing of data and optimiser), every kind in every run
+        for j, bad in enumerate(BAD_INITS * (1 if tier == "quick" else 4)):
+            rep, solver = combos[j % len(combos)]
+            shape = rng.sample([2, 3, 4], rng.choice([2, 3]))
+            if rep == "sparse" and gen.numel(shape) < 4:
+                shape = [3, 2]
+            out.append({"rep": rep, "solver": solver, "objective": "gaussian", "shape": shape, "rank": rng.randint(1, 2),
+                        "dseed": rng.randrange(10 ** 6), "iseed": rng.randrange(10 ** 6), "seed": rng.randrange(10 ** 6),
+                        "seed2": 0, "init": bad, "string": rng.choice(["rand", "Random", "nvecs", "", "random "])})
+        for init in ("random", "list", "ktensor"):
+            out.append({"rep": "sparse", "solver": "lbfgsb", "objective": "gaussian", "shape": [3, 2, 2], "rank": 2,
+                        "dseed": rng.randrange(10 ** 6), "iseed": rng.randrange(10 ** 6), "seed": rng.randrange(10 ** 6),
+                        "seed2": 0, "init": init, "bad_pairing": True})
+        return out
+
+    @staticmethod
+    def _one(c, init, seed):
+        """One gcp_opt call on fresh data / optimiser objects under a seed; everything recomputed in NumPy."""
+        arr, data = inits_problem(c)
+        if c["solver"] == "lbfgsb":
+            opt = O.LBFGSB(maxiter=3)
+        else:
+            opt = CLS[c["solver"]](rate=1e-3, epoch_iters=2, max_iters=2, printitn=0)
+        rec = RecordingUniform()
+        before = init_state(init)
+        state = np.random.get_state()
+        np.random.seed(seed)
+        try:
+            with patched(np.random, "uniform", rec), quiet():
+                m, m0, info = ttb.gcp_opt(data, c["rank"], Objectives[INIT_OBJECTIVES[c["objective"]]], opt, init=init,
+                                          printitn=0)
+        finally:
+            np.random.set_state(state)
+        now = np.asarray(data.full().data if isinstance(data, ttb.sptensor) else data.data, dtype=float)
+        return {"m0": ktensor_state(m0), "m": ktensor_state(m), "draws": rec.calls, "arr": arr,
+                "data_changed": not np.array_equal(now, arr),
+                "init_changed": not same_state(before, init_state(init)),
+                "aliased": isinstance(init, ttb.ktensor) and (m0 is init or any(
+                    a is b for a in m0.factor_matrices for b in init.factor_matrices)),
+                "final": float(info["final_f"]) if "final_f" in info else None}
+
+    def _run(self, c):
+        kind = c["init"]
+        if kind in BAD_INITS or c.get("bad_pairing"):
+            init, _ = make_init(c)
+            return {"main": call(self._one, c, init, c["seed"])}
+        runs = {}
+        init, parts = make_init(c)
+        runs["main"] = call(self._one, c, init, c["seed"])
+        if "ok" not in runs["main"]:
+            return runs
+        runs["again"] = call(self._one, c, make_init(c)[0], c["seed"])
+        if kind == "random":
+            runs["other"] = call(self._one, c, "random", c["seed2"])
+        elif kind in ("list", "tuple"):
+            runs["twin"] = call(self._one, c, make_init(c, "ktensor")[0], c["seed"])
+        elif kind == "ktensor":
+            runs["twin"] = call(self._one, c, make_init(c, "list")[0], c["seed"])
+        runs["parts"] = parts
+        return runs
+
+    def evaluate(self, cases):
+        return [self._judge(c, self._run(c)) for c in cases]
+
+    @staticmethod
+    def _judge(c, runs):
+        kind, obj = c["init"], c["objective"]
+        tags = ["init=" + kind, "rep=" + c["rep"], "solver=" + c["solver"], obj, f"N{len(c['shape'])}", f"R{c['rank']}"]
+        main = runs["main"]
+        if kind in BAD_INITS or c.get("bad_pairing"):
+            tags.append("ill-formed")
+            if "ok" in main:
+                return Verdict("violation", f"gcp_opt answered an ill-formed request (init: {kind}"
+                               f"{', sparse data with L-BFGS-B' if c.get('bad_pairing') else ''})", None, None, None, tags)
+            return Verdict("ok", "", main, None, None, tags + ["reject"], False)
+        if "ok" not in main:
+            return Verdict("violation", f"gcp_opt(init={kind}) on admissible {c['rep']} {obj} data with {c['solver']} raised "
+                           f"{main.get('exc')}: {main.get('msg')}", main, None, None, tags)
+        o = main["ok"]
+        shape, rank = list(c["shape"]), c["rank"]
+        arr = o["arr"]
+        w0, F0 = o["m0"][0], o["m0"][1:]
+        w1, F1 = o["m"][0], o["m"][1:]
+        fh, _gh, lb = setup(Objectives[INIT_OBJECTIVES[obj]], None)
+
+        def bad(what):
+            return Verdict("violation", f"gcp_opt(init={kind}, {c['solver']}, {c['rep']} {obj}): {what}",
+                           {"m0_weights": tolist(w0), "m0": [tolist(x) for x in F0]}, None, None, tags)
+        # the starting model handed back
+        if [int(f.shape[0]) for f in F0] != shape or any(f.shape[1] != rank for f in F0) or len(w0) != rank:
+            return bad(f"the starting model has shape {[f.shape for f in F0]}, asked for {shape} with {rank} components")
+        if not all(np.isfinite(f).all() for f in F0) or not np.isfinite(w0).all():
+            return bad("the starting model is not finite")
+        if not np.array_equal(w0, np.ones(rank)):
+            return bad(f"the starting model has weights {tolist(w0)} (the solvers work on unit weights)")
+        full0 = np_full(w0, F0)
+        scale = max(1.0, float(np.abs(full0).max()))
+        if kind == "random":
+            d = o["draws"][: len(shape)]
+            if len(d) < len(shape):
+                return bad(f"{len(d)} uniform draws for a {len(shape)}-way guess")
+            for n_, (low, high, size, _out) in enumerate(d):
+                if (low, high) != (0, 1) or tuple(np.atleast_1d(size).tolist()) != (shape[n_], rank):
+                    return bad(f"factor {n_} of the random guess drawn as uniform({low}, {high}, {size}); "
+                               f"uniform(0, 1, ({shape[n_]}, {rank})) expected")
+            U = [x[3] for x in d]
+            fullU = np_full(np.ones(rank), U)
+            nx, nu = float(np.sqrt(np.sum(arr ** 2))), float(np.sqrt(np.sum(fullU ** 2)))
+            ref = fullU * (nx / nu)
+            if not np.allclose(full0, ref, rtol=1e-9, atol=1e-12 * scale):
+                return bad("the random starting model is not the drawn uniform(0,1) factors scaled to the norm of the data")
+            if any((f < 0).any() for f in F0):
+                return bad("the random starting model has negative factor entries")
+        else:
+            w, F = runs["parts"]
+            if not np.allclose(full0, np_full(w, F), rtol=1e-9, atol=1e-12 * scale):
+                return bad("the starting model does not denote the tensor the guess denotes")
+        if o["init_changed"]:
+            return bad("the guess handed in was modified")
+        if o["aliased"]:
+            return bad("the starting model handed back shares its arrays with the guess handed in")
+        if o["data_changed"]:
+            return bad("the data tensor was modified")
+        # the result
+        if [int(f.shape[0]) for f in F1] != shape or any(f.shape[1] != rank for f in F1):
+            return bad("the result has another shape / rank than asked for")
+        if not all(np.isfinite(f).all() for f in F1):
+            return bad("the result is not finite")
+        if np.isfinite(lb) and any((f < lb).any() for f in F1):
+            return bad(f"a factor entry of the result is below the lower bound {lb}")
+        feasible = not np.isfinite(lb) or all((f >= lb).all() for f in F0)
+        if c["solver"] == "lbfgsb" and feasible:
+            f0, f1 = np_objective(fh, arr, w0, F0), np_objective(fh, arr, w1, F1)
+            if not (f1 <= f0 or close(f1, f0, 1e-12)):
+                return bad(f"L-BFGS-B result has objective {f1} > start {f0}")
+            if o["final"] is not None and not close(o["final"], f1, 1e-10):
+                return bad(f"final_f = {o['final']} is not the objective of the result ({f1})")
+        # same request, same seed: same start, same result
+        for other, label in (("again", "the same request under the same seed"),
+                             ("twin", "the same guess given as a " + ("ktensor" if kind != "ktensor" else "list"))):
+            if other not in runs:
+                continue
+            r2 = runs[other]
+            if "ok" not in r2:
+                return bad(f"{label} raised {r2.get('exc')}: {r2.get('msg')}")
+            if not same_state(o["m0"], r2["ok"]["m0"]):
+                return bad(f"{label} starts from another model")
+            if not same_state(o["m"], r2["ok"]["m"]):
+                return bad(f"{label} gives another result")
+        if kind == "random":
+            r3 = runs["other"]
+            if "ok" not in r3:
+                return bad(f"the same request under another seed raised {r3.get('exc')}: {r3.get('msg')}")
+            tags.append("other-seed-other-start" if not same_state(o["m0"], r3["ok"]["m0"]) else "other-seed-same-start")
+        if not feasible:
+            tags.append("start-below-bound")
+        return Verdict("ok", "", {"m0_weights": tolist(w0)}, None, None, tags, True)
+
+    def shrink(self, case):
+        c = case
+        if c["rank"] > 1:
+            yield {**c, "rank": 1, **({"weights": c["weights"][:1]} if c.get("weights") else {})}
+        if len(c["shape"]) > 2:
+            yield {**c, "shape": c["shape"][:2]}
+
+
 def families():
-    return [Samplers(), Plans(), SolverScripted(), SolverReal(), Lbfgsb()]
+    return [Samplers(), Plans(), SolverScripted(), SolverReal(), Lbfgsb(), GcpSetup(), GcpOptInits()]
